@@ -177,13 +177,18 @@ scc_helper(C, G, Bb) :-
     '$call_with_inference_counting'(call(G)),
     (  '$check_cp'(Cp) ->
        '$reset_scc_block'(Bb),
+       % the goal is finished: drop this call's own choice point, so that
+       % its cleaner is the only one whose choice point is gone.
+       '$set_cp_by_default'(Cp),
        run_cleaners_without_handling(Cp)
     ;  true
     ;  '$fail'
     ).
 scc_helper(_, _, Bb) :-
     '$reset_scc_block'(Bb),
-    '$push_ball_stack',
+    '$push_ball_stack', % fails when the goal has failed, not thrown: the next clause
+    '$get_cp'(Cp),
+    '$set_cp_by_default'(Cp),
     run_cleaners_with_handling,
     '$pop_from_ball_stack',
     '$unwind_stack'.
